@@ -122,7 +122,9 @@ pub fn judge(
         // BAI: the trailing n_no_coor (8 bytes) is optional in the format; an index that equals the
         // original except for an absent unplaced-unmapped count is "the original minus an optional
         // trailing field"
-        if obs.end == End::Eof && kind == Kind::Bai && k + 8 >= len && got.len() == 1 && want.len() == 1 {
+        // (CSI / tabix: the same optional field ends the uncompressed stream; when everything before
+        // it is intact the cut lies in or right before the BGZF member(s) that store it)
+        if obs.end == End::Eof && ((kind == Kind::Bai && k + 8 >= len) || matches!(kind, Kind::Csi | Kind::Tabix)) && got.len() == 1 && want.len() == 1 {
             let strip = |s: &str| match s.find("unplaced_unmapped_record_count: ") {
                 Some(i) => s[..i].to_string(),
                 None => s.to_string(),
